@@ -335,9 +335,49 @@ def case_failed_verification(ctx, ns, shank):
         ctx.oblige("original_removed_only_after_successful_verification", conv.check_completed is True)
 
 
+def case_rerun_other_options(ctx, kind, ns):
+    """a repeated run WITHOUT overwrite whose options differ from the first run's (compress / post_check flipped freely):
+    it still changes nothing on disk and reports that it did nothing"""
+    F, raw, nc = _mk_original(kind, ns)
+    opts1 = {"post_check": bool(ctx.bool("post_check")), "compress": bool(ctx.bool("compress")), "delete_original": False}
+    opts2 = {"post_check": bool(ctx.bool("post_check_second_run")), "compress": bool(ctx.bool("compress_second_run")), "delete_original": False}
+    p = ctx.int("p", 0, ns - 1)
+    log1, log2 = {}, {}
+    r1 = _run(ctx, F, raw, ns, p, kind, opts1, False, None, log1)
+    if not ctx.oblige("first_run_status_one", (not isinstance(r1, Exception)) and r1 == 1, detail={"status": repr(r1)[:100], "opts": opts1}):
+        return
+    r2 = _run(ctx, F, raw, ns, p, kind, opts2, False, None, log2)
+    ctx.oblige("original_recoverable_after_run2", _recoverable(ctx, F, raw, ns, p, kind), detail={"opts": opts1, "opts2": opts2})
+    ctx.oblige("repeated_run_without_overwrite_does_nothing", (not isinstance(r2, Exception)) and r2 == 0 and log2["mut"] == 0,
+               detail={"status": repr(r2)[:100], "mutations": log2["mut"], "opts": opts1, "opts2": opts2})
+
+
+def case_compress_step_repeated(ctx, ns):
+    """one converter object: process() and then the public compression step called again (twice): whatever the repeated call
+    answers (it may refuse), the samples stay recoverable and the split set stays complete"""
+    import neuropixel
+    F, raw, nc = _mk_original("NP2.4", ns)
+    opts = {"post_check": bool(ctx.bool("post_check")), "compress": bool(ctx.bool("compress")), "delete_original": bool(ctx.bool("delete_original"))}
+    p = ctx.int("p", 0, ns - 1)
+    conv = ctx.call("converter", neuropixel.NP2Converter, FakePath(ORIG), post_check=opts["post_check"], delete_original=opts["delete_original"], compress=opts["compress"])
+    conv.init_params(nwindow=1200)
+    r = ctx.call("process", conv.process)
+    ctx.oblige("first_run_status_one", r == 1, detail={"status": r})
+    for k in range(2):
+        try:
+            conv.compress_NP24()
+        except (AssertionError, FileNotFoundError, OSError):
+            pass        # a repeated call may refuse
+        ctx.oblige("original_recoverable_after_repeated_compress_step", _recoverable(ctx, F, raw, ns, p, "NP2.4"), detail={"opts": opts, "call": k})
+        ctx.oblige("split_set_complete_after_repeated_compress_step", _valid_set(ctx, F, ns, p, True), detail={"opts": opts, "call": k})
+
+
 def cases(tier):
     b = bounds(tier)
     cs = []
+    for kind in ("NP2.1", "NP2.4"):
+        cs.append(Case(f"{kind.lower().replace('.', '')}_rerun_other_options", "case_rerun_other_options", {"kind": kind, "ns": 600}, timeout_s=2400))
+    cs.append(Case("np24_compress_step_repeated", "case_compress_step_repeated", {"ns": 600}, timeout_s=2400))
     cs.append(Case("np24_shank_subset", "case_shank_subset", {"ns": 600}, timeout_s=2400))
     for after in ("nothing", "rerun"):
         cs.append(Case(f"np24_delete_step_after_{after}", "case_delete_without_check", {"ns": 600, "after": after}, timeout_s=2400))
@@ -436,6 +476,40 @@ conv.delete_NP24()
 print('status', st, 'mismatch reported', reported, 'check_completed', conv.check_completed, 'original exists', orig.exists())
 if not reported: not_reproduced('the verification did not report the damaged file')
 if conv.check_completed is True or not orig.exists(): reproduced(f'after a FAILED verification check_completed={{conv.check_completed}} and the deletion step removed the original: {{not orig.exists()}}')
+not_reproduced()
+"""
+    if "rerun_other_options" in case:
+        opts["delete_original"] = False
+        opts2 = {"post_check": bool(m.get("post_check_second_run")), "compress": bool(m.get("compress_second_run")), "delete_original": False}
+        full = _replay_text(cex, opts, kind, ns, None, False, None, None)
+        return full.split("from symex import realfault")[0] + f"""
+opts2 = {opts2}
+def one(o):
+    conv = neuropixel.NP2Converter(orig if orig.exists() else d / 'x.imec0.ap.cbin', post_check=o['post_check'], delete_original=False, compress=o['compress'])
+    conv.init_params(nwindow=1200)
+    return conv.process()
+st1 = one(opts); before = listing()
+try:
+    st2 = one(opts2)
+except Exception as e:
+    reproduced(f'repeated run without overwrite (options {{opts2}} after {{opts}}) raised {{type(e).__name__}}: {{e}}')
+after = listing()
+print(st1, st2, before, after, sep='\n')
+if st2 != 0 or after != before: reproduced(f'repeated run without overwrite (options {{opts2}} after a first run with {{opts}}): status {{st2}}, removed {{sorted(set(before) - set(after))}}, created {{sorted(set(after) - set(before))}}')
+not_reproduced()
+"""
+    if "compress_step_repeated" in case:
+        return full.split("from symex import realfault")[0] + f"""
+conv = neuropixel.NP2Converter(orig, post_check=opts['post_check'], delete_original=opts['delete_original'], compress=opts['compress'])
+conv.init_params(nwindow=1200)
+st = conv.process()
+for k in range(2):
+    try:
+        conv.compress_NP24()
+    except (AssertionError, FileNotFoundError, OSError) as e:
+        print('repeated compress_NP24() refused:', type(e).__name__, e)
+    if not recoverable(): reproduced(f'after process() (options {{opts}}) and {{k + 1}} more call(s) of compress_NP24() the samples exist nowhere any more: {{listing()}}')
+    if not all(shank_ok(s) for s in (0, 1)): reproduced(f'per-shank set incomplete after {{k + 1}} repeated compress_NP24() call(s): {{listing()}}')
 not_reproduced()
 """
     if "same_object" in case:
